@@ -76,6 +76,35 @@ pub fn run(ctx: &mut Ctx, _replay: Option<&[String]>) {
     let pcfg = peg::Config { nrows: 10, ncols: 20, wc: 3 };
     let distinct = (0..16u64).filter_map(|s| pcfg.run(s).ok()).map(|h| h.alist()).collect::<std::collections::HashSet<_>>().len();
     ctx.emit("c16 seeds peg", &distinct.to_string(), true, &["seed-diversity"]);
+    // boundary of the seed range: ranges whose seeds ALL fail but whose first seed beyond the range succeeds (search must return
+    // nothing), and empty ranges
+    let mut boundary = 0;
+    for _ in 0..ctx.scale(400, 4000) {
+        if boundary >= ctx.scale(40, 400) { break; }
+        let cfg = gen_mn(&mut rng, false);
+        // scan 40 consecutive seeds; look for a run of failures followed by a success
+        let start0 = rng.next() % 10_000;
+        let outcomes: Vec<bool> = (0..40u64).map(|i| cfg.run(start0 + i).is_ok()).collect();
+        // prefer a success preceded by at least one failure; every fifth case takes an empty range instead
+        let want_empty = boundary % 5 == 4;
+        for i in 0..outcomes.len() {
+            if outcomes[i] && (want_empty || (i > 0 && !outcomes[i - 1])) {
+                // longest failing stretch right before seed start0 + i
+                let mut j = i;
+                while !want_empty && j > 0 && !outcomes[j - 1] { j -= 1; }
+                let (start, tries) = (start0 + j as u64, (i - j) as u64);
+                let out = match cfg.search(start, tries) {
+                    None => "none yes".to_string(),
+                    Some((s, h)) => format!("some {} {} {}", s, if s >= start && s < start + tries { "yes" } else { "NO" },
+                        if cfg.run(s).ok().as_ref() == Some(&h) { "yes" } else { "NO" }),
+                };
+                ctx.emit(&format!("c16 search {} {} {}", mn_cfg_str(&cfg), start, tries), &out, true,
+                    &[if tries == 0 { "search-empty-range" } else { "search-all-fail-next-succeeds" }]);
+                boundary += 1;
+                break;
+            }
+        }
+    }
     // parallel seed search (global rayon pool; the pool size is whatever the environment gives)
     for k in 0..ctx.scale(60, 600) {
         let cfg = gen_mn(&mut rng, false);
